@@ -176,6 +176,14 @@ func runScenario(sc Scenario, out *bufio.Writer, tmp string) (dirty bool, err er
 	if len(s.calls) > 0 {
 		s.dirty = true
 	}
+	if !s.dirty {
+		// Every Watcher of the scenario has returned from Close. A notification descriptor that is still open now was
+		// leaked by the library (the obs lines of the scenario carry the counts, the verdict is the trace specification's);
+		// it must not pile up in this process: the instance limit is shared by everything that runs on the machine.
+		if n := reapInotify(s.sh.fd); n > 0 {
+			fmt.Fprintf(os.Stderr, "note: scenario %s left %d inotify descriptors open; closed by the driver\n", sc.ID, n)
+		}
+	}
 	s.emit(J{"k": "end", "id": sc.ID, "dirty": s.dirty})
 	return s.dirty, nil
 }
@@ -657,6 +665,24 @@ func (s *scen) resources() resources {
 	return r
 }
 
+// reapInotify closes every inotify descriptor of this process except keep.
+func reapInotify(keep int) int {
+	n := 0
+	ents, _ := os.ReadDir("/proc/self/fd")
+	for _, e := range ents {
+		fd, err := strconv.Atoi(e.Name())
+		if err != nil || fd == keep {
+			continue
+		}
+		if l, err := os.Readlink("/proc/self/fd/" + e.Name()); err == nil && l == "anon_inode:inotify" {
+			if syscall.Close(fd) == nil {
+				n++
+			}
+		}
+	}
+	return n
+}
+
 // ---------------------------------------------------------------- step execution
 
 func orEmpty(p []string) []string {
@@ -798,7 +824,8 @@ func (s *scen) stepNew(st *Step) {
 			w, err = fsnotify.NewBufferedWatcher(uint(capv))
 		}
 		// Instance limit reached because other checks run in parallel: wait, do not judge.
-		if err != nil && st.Nofile == 0 && try < 100 && (errors.Is(err, syscall.EMFILE) || errors.Is(err, syscall.ENFILE)) {
+		// (Not when this very process holds most of the instances: then the scenario itself leaks them, waiting cannot help.)
+		if err != nil && st.Nofile == 0 && try < 100 && (errors.Is(err, syscall.EMFILE) || errors.Is(err, syscall.ENFILE)) && s.resources().ifds < 30 {
 			time.Sleep(100 * time.Millisecond)
 			continue
 		}
@@ -810,7 +837,9 @@ func (s *scen) stepNew(st *Step) {
 	line := J{"k": "new", "w": st.W, "cap": capv, "ret": classify(err), "obscap": -1, "fault": st.Nofile != 0}
 	if err == nil {
 		ww := &watcher{W: w, fd: fsnotify.VerifInotifyFd(w), gids: map[int]bool{}, reqCap: capv}
-		s.quiesce()
+		if !st.Nowait {
+			s.quiesce()
+		}
 		for id := range libGids() {
 			if !before[id] {
 				ww.gids[id] = true
@@ -1179,7 +1208,9 @@ func (s *scen) stepCall(st *Step) {
 	}()
 	if st.Async {
 		s.calls[st.T] = pc
-		s.quiesce()
+		if !st.Nowait {
+			s.quiesce()
+		}
 		line["ret"] = "pending"
 		s.emit(line)
 		return
